@@ -110,3 +110,6 @@ func VerifSetMap[T comparable](s *Set[T]) *Map[T, struct{}] { return &s.m }
 
 // VerifKeyedMap exposes the Map behind a KeyedMutex to the harness.
 func VerifKeyedMap[T comparable](km *KeyedMutex[T]) *Map[T, *sync.Mutex] { return &km.m }
+
+// VerifMapMutex exposes a Map's mutex (to ask the scheduler who owns it).
+func VerifMapMutex[K comparable, V any](m *Map[K, V]) *sync.Mutex { return &m.mu }
